@@ -12,6 +12,27 @@ def base_type(type_str):
   return type_str.split(':', 1)[0] if isinstance(type_str, str) else ""
 
 
+RECORD_EDITS = ('AddRecord', 'BulkAddRecord', 'UpdateRecord', 'BulkUpdateRecord', 'RemoveRecord',
+                'BulkRemoveRecord')
+
+
+def requested_edits(uas):
+  """
+  Judgement-free abstract of a request that consists only of record edits on user tables:
+  {tableId: [requested column ids]} (empty dict otherwise).  Used by the C31 clauses.
+  """
+  out = {}
+  for u in uas:
+    if not (u and isinstance(u[0], str) and u[0] in RECORD_EDITS and len(u) > 1 and isinstance(u[1], str)
+            and not u[1].startswith('_grist_')):
+      return {}
+    cols = out.setdefault(u[1], set())
+    if u[0] in ('AddRecord', 'UpdateRecord', 'BulkAddRecord', 'BulkUpdateRecord') and len(u) > 3 \
+        and isinstance(u[3], dict):
+      cols.update(u[3].keys())
+  return {t: sorted(c) for t, c in out.items()}
+
+
 REMOVALS = ('RemoveRecord', 'BulkRemoveRecord', 'RemoveTable', 'RemoveColumn', 'RemoveView',
             'RemoveViewSection')
 
@@ -147,7 +168,8 @@ class Recorder(object):
     ev = {"k": "B", "tag": tag, "of": of, "clause": clause, "stored": [], "direct": [], "undo": [],
           "ret": "", "uas": note if note is not None else [u[0] for u in uas],
           # judgement-free fact about the request: every user action is a removal by name
-          "onlyrm": bool(uas) and all(isinstance(u[0], str) and u[0] in REMOVALS for u in uas)}
+          "onlyrm": bool(uas) and all(isinstance(u[0], str) and u[0] in REMOVALS for u in uas),
+          "req": requested_edits(uas) if tag == "ua" else {}}
     self.full.append(uas)
     try:
       reply = adapter.apply(self.eng, uas, user)
@@ -173,7 +195,7 @@ class Recorder(object):
     """
     import formula_prompt    # pylint: disable=import-outside-toplevel
     ev = {"k": "Q", "tag": "readonly", "of": 0, "clause": "C29.unchanged", "stored": [], "direct": [],
-          "undo": [], "ret": "", "uas": ["%s %s" % (call, " ".join(str(a) for a in args))], "onlyrm": False,
+          "undo": [], "ret": "", "uas": ["%s %s" % (call, " ".join(str(a) for a in args))], "onlyrm": False, "req": {},
           "exc": ""}
     eng = self.eng
     try:
@@ -210,7 +232,7 @@ class Recorder(object):
     An event that compares a sibling engine with this one and does not advance the document:
     Reopen (C07), Rebuild (C05), a peer process (C30).  `delta` = the peer's tables that differ.
     """
-    ev = {"k": "P", "tag": tag, "of": 0, "clause": clause, "qclause": qclause, "onlyrm": False,
+    ev = {"k": "P", "tag": tag, "of": 0, "clause": clause, "qclause": qclause, "onlyrm": False, "req": {},
           "stored": [encode_action(a, self.tt) for a in stored], "direct": [], "undo": [],
           "ret": "", "uas": note or [tag]}
     tables = {t: v for t, v in peer_state.items() if self.state.get(t) != v}
